@@ -161,6 +161,15 @@ def parse_qf(r):
     return int(m.group(1)), int(m.group(2)), m.group(3)
 
 
+def rval(text):
+    """the binding of R in an answer text (the wrapper shapes add other bindings)."""
+    m = re.search(r"[{,]R=([^,}]*)", text or "")
+    if m:
+        return m.group(1)
+    m = re.search(r"'-'\(_G?\w*,([^)]*)\)", text or "")   # in_findall: E-R with E unbound
+    return m.group(1) if m else None
+
+
 def classify(res, ref):
     """outcome class of a faulted run; ref = the unfaulted answer text."""
     if res is None:
@@ -175,7 +184,7 @@ def classify(res, ref):
         return "caught"
     if res.startswith("error('error'('resource_error'('memory')"):
         return "uncaught_resource_error"
-    if ref is not None and res == ref:
+    if ref is not None and rval(res) is not None and rval(res) == rval(ref):
         return "absorbed"
     if res.startswith("false"):
         return "failed"
@@ -347,19 +356,13 @@ def run(ctx):
                                                  c["k"], (impl.get(cid + ".p") or "")[:200], (impl.get(cid + ".b") or "")[:200]), c))
             continue
         ref = c["ref"]
-        if c["shape"] == "in_findall":
-            ref_cmp = None
-        else:
-            ref_cmp = ref
-        cls = classify(r, ref_cmp)
-        if c["shape"] == "in_findall" and cls == "wrong_answer" and d == 0:
-            cls = "absorbed"
+        cls = classify(r, ref)
         classes[cls] = classes.get(cls, 0) + 1
         pairs.add((c["template"], c["k"], c["mode"], c["shape"]))
         if len(samples) < 6:
             samples.append({"query": c["query"], "k": c["k"], "mode": c["mode"], "K": c["K"], "impl": (impl.get(cid + ".f") or "")[:160],
                             "model": model.get(cid + ".m")})
-        if d == 0 and cls in ("absorbed", "wrong_answer") and r == ref:
+        if d == 0 and cls == "absorbed":
             # the k-th growth was never requested in this run (K varies slightly between runs)
             classes["fault-not-reached"] = classes.get("fault-not-reached", 0) + 1
             continue
@@ -373,7 +376,7 @@ def run(ctx):
             if pr != PROBE_EXPECT:
                 sig = {"template": c["template"], "class": "probe-wrong", "mode": c["mode"], "shape": c["shape"]}
                 detail = "after recovery from growth %d failing the probe answers %s" % (c["k"], (pr or "missing")[:300])
-            elif c["shape"] != "in_findall" and r2 != ref:
+            elif rval(r2) != rval(ref):
                 sig = {"template": c["template"], "class": "rerun-wrong", "mode": c["mode"], "shape": c["shape"]}
                 detail = "after recovery from growth %d failing the template answers %s instead of %s" % (c["k"], (r2 or "missing")[:200], ref[:100])
         if sig is not None:
